@@ -266,6 +266,9 @@ def run_one(seed, tape, opts):
                 out.append((end, pr))
         return out
 
+    def disturbed_net():
+        return any(not l.up for l in net.links)
+
     def oracle():
         if viol:
             return
@@ -371,6 +374,17 @@ def run_one(seed, tape, opts):
         sim.run(6000, max_time=75)
         oracle()
         for p, win in ((S, es), (R, er)):
+            # the selected connection itself stays usable: nothing but the
+            # application (or the network) may close it
+            if win is not None and win.transport.disconnecting:
+                V("C07.winner_closed", "both connect() results are the two "
+                  "ends of one link (only the *other* connections are closed)",
+                  "%s: the selected connection (link %d) was closed %.0f s "
+                  "after connect() returned it, by %s" %
+                  (p.name, win.link.serial,
+                   sim.now() - (p.connect_fired_at or sim.now()),
+                   "its own side (loseConnection)"))
+                break
             for end, c in party_conns(p):
                 if end is win:
                     continue
